@@ -32,7 +32,7 @@ def run(c):
             c.correspond(out, drv, label="script:" + os.path.abspath(f))
         # several harness processes in parallel (each a different seed derived from VERIF_SEED), one correspondence each
         from concurrent.futures import ThreadPoolExecutor
-        chunks, per = c.n((4, 70), (8, 1500))
+        chunks, per = c.n((4, 70), (8, 1200))
         def one(k):
             return c.go_run(binary, ["-mode=c15", f"-n={per}", f"-seed={c.seed * 1000 + k}"], timeout=1500)
         with ThreadPoolExecutor(chunks) as ex:
@@ -78,7 +78,7 @@ META = {
              "existing namespace row and that reference never dangles; the journal is strictly ascending by version, lists every entity at most "
              "once at its current version, is a prefix of the full list and paging from the last delivered version continues exactly where it stopped."),
     "note": ("Trusted: Lean kernel, SQLite, the engine's serialisation of Do callbacks, model<->code correspondence on generated histories "
-             "(quick 280, thorough 12000 histories + corpus). GENUINE DEFECT on the pinned tree (oracle signature namespace-renamed, corpus/C15/"
+             "(quick 280, thorough 9600 histories + corpus). GENUINE DEFECT on the pinned tree (oracle signature namespace-renamed, corpus/C15/"
              "builtin-namespace-rename.ops): a namespace request with the create flag for an EXISTING builtin (negative id) namespace is turned into an "
              "edit by SaveEntity but skipped checkNamespace, so it renames the namespace. The model and the theorems describe the code with "
              "fixes/C15-builtin-namespace-rename.diff applied (Variant.fixed); Variant.old reproduces the pinned tree and the violation is a `decide` "
